@@ -1583,8 +1583,13 @@ def _factors_loop(body, a, b, lst, pabs, sw):
         e = m_stmt(s, "if T.shape(_x)[0] != T.shape(_y)[0]:\n    raise ValueError()")
         if e and {env.get(_name(e["_x"]), (0, 0))[1], env.get(_name(e["_y"]), (0, 0))[1]} == {1, 2}:
             sw["rows"] = True; continue
-        e = m_stmt(s, "if T.prod(T.norm(_x, axis=0)) == 0 or T.prod(T.norm(_y, axis=0)) == 0:\n    raise ValueError()")
-        e1 = None if e else m_stmt(s, "if T.prod(T.norm(_x, axis=0)) == 0:\n    raise ValueError()")
+        # "some column norm is zero": the product of the norms is zero / any norm is zero / the smallest norm is zero (the same
+        # decision in exact arithmetic; the product form underflows in floating point: known finding congruence_norm_product_underflow)
+        e = e1 = None
+        for zt in ("T.prod(T.norm({0}, axis=0)) == 0", "T.any(T.norm({0}, axis=0) == 0)", "T.min(T.norm({0}, axis=0)) == 0"):
+            e = e or m_stmt(s, "if " + zt.format("_x") + " or " + zt.format("_y") + ":\n    raise ValueError()")
+        for zt in ("T.prod(T.norm({0}, axis=0)) == 0", "T.any(T.norm({0}, axis=0) == 0)", "T.min(T.norm({0}, axis=0)) == 0"):
+            e1 = e1 or (None if e else m_stmt(s, "if " + zt.format("_x") + ":\n    raise ValueError()"))
         if e or e1:
             for h in (e or e1).values():
                 v = env.get(_name(h))
@@ -1655,6 +1660,7 @@ def src_similarity(repo):
     opts = {}       # variable -> list of names
     idxs = None
     done = False
+    rank_sides = set()
     tm = Temps(_helpers(fs, {"correlation_index", "_compute_correlation_index"}), protected=ps)
     for s in tm.walk(_body(fn)):
         if done:
@@ -1662,8 +1668,10 @@ def src_similarity(repo):
         if isinstance(s, ast.For) and len(s.body) == 1 and not s.orelse:
             e = {}
             inner = m_stmt(s.body[0], "if len({tl.shape(_A)[1] for _A in _fs}) != 1:\n    raise ValueError()")
-            if inner and pmatch(s.iter, ast.parse("[_p, _q]", mode="eval").body, e) and _name(inner["_fs"]) == _name(s.target) \
-                    and {_name(e["_p"]), _name(e["_q"])} == {f1, f2}:
+            # the uniform-rank check must reach BOTH factor lists (a list or a tuple of the two, in either order); a loop over one
+            # of them only is not the same decision (lists of different lengths: a foreign rank in the unpaired tail; an empty list)
+            if inner and (pmatch(s.iter, ast.parse("[_p, _q]", mode="eval").body, e) or pmatch(s.iter, ast.parse("(_p, _q)", mode="eval").body, e)) \
+                    and _name(inner["_fs"]) == _name(s.target) and {_name(e["_p"]), _name(e["_q"])} == {f1, f2}:
                 sw["rank"] = True; continue
             e = {}
             if pmatch(s.target, ast.parse("(_a, _b)", mode="eval").body, e) and pmatch(s.iter, ast.parse("zip(_A, _B)", mode="eval").body, e):
@@ -1680,6 +1688,12 @@ def src_similarity(repo):
                         sw["z%d" % lv[_name(h)]] = True
                     continue
             raise Untranslatable("loop: " + ast.unparse(s).split("\n")[0][:70])
+        e = m_stmt(s, "if len({tl.shape(_A)[1] for _A in _fs}) != 1:\n    raise ValueError()")
+        if e and _name(e["_fs"]) in (f1, f2) and not X:
+            rank_sides.add(_name(e["_fs"]))
+            if rank_sides == {f1, f2}:
+                sw["rank"] = True
+            continue
         e = m_stmt(s, "_o = _list")
         if e and isinstance(e["_list"], ast.List) and all(isinstance(x, ast.Constant) and isinstance(x.value, str) for x in e["_list"].elts):
             opts[_name(e["_o"])] = [x.value for x in e["_list"].elts]; continue
@@ -1781,6 +1795,8 @@ def src_similarity(repo):
     red = sw["red"][0]
     redf = "(fun m => match m with " + " | ".join(f"{METH_CTOR[n]} => {('Some ' + red[n]) if n in red else 'None'}" for n in METH_CTOR) + " end)"
     meths = "[" + "; ".join(METH_CTOR[n] for n in sw["methods"]) + "]"
+    if rank_sides and rank_sides != {f1, f2}:
+        raise Untranslatable("uniform-rank check on one factor list only: " + ", ".join(sorted(rank_sides)))
     return (f"(mkCI {bl(sw['rank'])} {meths} {bl(sw['stack'])} {bl(sw['shapes'])} {bl(sw['z1'])} {bl(sw['z2'])} {bl(sw['n1'])} {bl(sw['n2'])} "
             f"{redf} {bl(cabs)} {cexp} {cmp_})")
 
@@ -1981,10 +1997,10 @@ def src_cp_permute(repo):
 
 
 SRC_TIES = {          # name -> (extractor, record type, canonical term, streams whose cases carry the sampled comparison)
-    "factors.congruence_coefficient": (src_factors, "cong_src", "canonical_cs", ("congruence_coefficient", "congruence_certified", "cp_permute_factors")),
-    "similarity.correlation_index": (src_similarity, "ci_src", "canonical_ci", ("correlation_index",)),
+    "factors.congruence_coefficient": (src_factors, "cong_src", "canonical_cs", ("congruence_coefficient", "congruence_certified", "cp_permute_factors", "congruence_edge", "cp_permute_ties", "congruence_scale")),
+    "similarity.correlation_index": (src_similarity, "ci_src", "canonical_ci", ("correlation_index", "correlation_index_lengths")),
     "leverage_scores.leverage_score_dist": (src_leverage, "lev_src", "canonical_lv", ("leverage_score_dist",)),
-    "cp_tensor.cp_permute_factors": (src_cp_permute, "cpp_src", "canonical_pp", ("cp_permute_factors", "cp_permute_full")),
+    "cp_tensor.cp_permute_factors": (src_cp_permute, "cpp_src", "canonical_pp", ("cp_permute_factors", "cp_permute_full", "cp_permute_ties")),
 }
 
 
@@ -2028,6 +2044,185 @@ def source_tie_records(chk):
     return out
 
 
+
+# ----------------------------------------------------------------------------- round-8 streams (appended LAST in STREAMS)
+def gen_congruence_edge(tier, rng):
+    """absolute_value=False where EVERY aligned congruence is negative (odd number of sign flips per component: the maximum itself
+    may be negative; rank 1: exactly -1, the lower end of the range), rank 1 in every option, and heavily tied inputs (all columns
+    equal / two pairs of repeated columns / B = A with a repeated column): several optimal matchings, ANY of them is a correct
+    answer -- compared by value only"""
+    calls = []
+    reps = 2 if tier == "quick" else 6
+    for r in range(1, 6):
+        for nm in (1, 3):
+            for _ in range(reps if r <= 3 else 1):
+                hs = [rng.randint(2, 5) for _ in range(nm)]
+                A = factor_set(rng, r, hs, generic=True)
+                sigma = list(range(r)); rng.shuffle(sigma)
+                ds = scalings(rng, r, nm, "pos")
+                flip = [rng.randrange(nm) for _ in range(r)]          # exactly one negative multiplier per component
+                ds = [[-abs(d) if flip[j] == m else abs(d) for j, d in enumerate(dm)] for m, dm in enumerate(ds)]
+                B = equivalent_copy(A, sigma, ds)
+                calls.append(dict(As=A, Bs=B, absv=False, single=(nm == 1 and rng.random() < 0.5), stream="all-negative"))
+    for absv in (True, False, None):
+        for nm in (1, 2):
+            hs = [rng.randint(1, 4) for _ in range(nm)]
+            A = factor_set(rng, 1, hs); B = factor_set(rng, 1, hs)
+            calls.append(dict(As=A, Bs=B, absv=absv, single=(nm == 1), stream="rank-1"))
+            calls.append(dict(As=A, Bs=[-a for a in A], absv=absv, single=False, stream="rank-1"))
+    for k in range(9 if tier == "quick" else 30):
+        r = rng.randint(2, 5); nm = rng.choice([1, 2]); hs = [rng.randint(1, 4) for _ in range(nm)]
+        A = factor_set(rng, r, hs)
+        kind = k % 3
+        if kind == 0:                      # all columns equal: every matching is optimal
+            for f in A:
+                for j in range(1, r):
+                    f[:, j] = f[:, 0]
+        elif kind == 1 and r >= 4:         # two pairs of repeated columns
+            for f in A:
+                f[:, 1] = f[:, 0]; f[:, 3] = f[:, 2]
+        else:
+            j, k2 = rng.sample(range(r), 2)
+            for f in A:
+                f[:, j] = f[:, k2]
+        absv = rng.choice([True, False])
+        sigma = list(range(r)); rng.shuffle(sigma)
+        B = [a.copy() for a in A] if k % 2 == 0 else equivalent_copy(A, sigma, scalings(rng, r, nm, "signed" if absv else "pos"))
+        calls.append(dict(As=A, Bs=B, absv=absv, stream="heavy-ties"))
+    return calls
+
+
+def gen_corridx_lengths(tier, rng):
+    """factor lists of DIFFERENT lengths (zip pairs the common prefix): the rank check still concerns every matrix of BOTH lists --
+    a matrix of another rank in the unpaired tail of either list is rejected; with uniform ranks the per-mode methods compare the
+    common prefix, `stacked' compares the two stacks (rejected unless the total heights agree); an empty second list is rejected
+    whatever the method (avg_score would otherwise average nothing)"""
+    calls = []
+    for k in range(16 if tier == "quick" else 48):
+        r = rng.randint(1, 3); hs = [rng.randint(1, 3) for _ in range(2)]
+        A = factor_set(rng, r, hs); B = factor_set(rng, r, hs)
+        kind = ["tail_rank_second", "tail_rank_first", "prefix_valid", "empty_second_avg"][k % 4]
+        meth = ["max_score", "min_score", "avg_score"][(k // 4) % 3]
+        if kind == "tail_rank_second":
+            A = A[:1]; B = [B[0], dyadic_matrix(rng, hs[1], r + 1)]
+            calls.append(dict(As=A, Bs=B, method=meth, malformed=kind, stream="lengths"))
+        elif kind == "tail_rank_first":
+            B = B[:1]; A = [A[0], dyadic_matrix(rng, hs[1], r + 1)]
+            calls.append(dict(As=A, Bs=B, method=meth, malformed=kind, stream="lengths"))
+        elif kind == "prefix_valid":
+            if (k // 4) % 2 == 0:
+                A = A[:1]
+            else:
+                B = B[:1]
+            calls.append(dict(As=A, Bs=B, method=meth, tol=None, stream="lengths-valid"))
+        else:
+            calls.append(dict(As=A, Bs=[], method="avg_score" if (k // 4) % 2 == 0 else meth, malformed=kind, stream="lengths"))
+    return calls
+
+
+def gen_permute_ties(tier, rng):
+    """cp_permute_factors where the reference has REPEATED components (several optimal matchings: any of them is correct; the
+    model takes the implementation's matching as the oracle's answer and checks its optimality by value) and rank 1"""
+    calls = []
+    for k in range(10 if tier == "quick" else 36):
+        r = 1 if k % 5 == 4 else rng.randint(2, 4)
+        nm = rng.choice([2, 3]); hs = [rng.randint(2, 4) for _ in range(nm)]
+        A = factor_set(rng, r, hs, generic=True)
+        if r >= 2:
+            j, k2 = rng.sample(range(r), 2)
+            for f in A:
+                f[:, j] = f[:, k2]
+        wref = np.array([rng.choice([0.5, 1.0, 2.0, 3.0]) for _ in range(r)])
+        w = np.array([rng.choice([0.5, 1.0, 2.0, 3.0, -1.0]) for _ in range(r)])
+        sigma = list(range(r)); rng.shuffle(sigma)
+        B = equivalent_copy(A, sigma, scalings(rng, r, nm, "signed"))
+        as_list = (k % 2 == 1)
+        extra = {}
+        if as_list:
+            s2 = list(range(r)); rng.shuffle(s2)
+            extra = dict(sigma_other=s2, Bs_other=equivalent_copy(A, s2, scalings(rng, r, nm, "signed")),
+                         w_other=np.array([rng.choice([0.25, 1.5, 4.0, -2.0]) for _ in range(r)]))
+        calls.append(dict(As=A, Bs=B, w=w, wref=wref, sigma=sigma, as_list=as_list, pick=(k // 2) % 2, stream="ties", **extra))
+    return calls
+
+
+def gen_congruence_scale(tier, rng):
+    """the scaling indeterminacy at LARGE and SMALL scales: B = A with permuted columns, every column multiplied by the same power of
+    two 2^-k (exact in floating point; squares and sums stay far inside the normal range).  For rank * k > 1074 the PRODUCT of the
+    column norms underflows to 0 although no column is zero"""
+    calls = []
+    for k in range(6 if tier == "quick" else 18):
+        r = [5, 4, 3, 5, 2, 5][k % 6]; e = [-220, -280, -100, 60, -300, -120][k % 6]
+        nm = rng.choice([1, 2]); hs = [rng.randint(2, 4) for _ in range(nm)]
+        A = factor_set(rng, r, hs, generic=True, intnorm=True)
+        sigma = list(range(r)); rng.shuffle(sigma)
+        B = [b * (2.0 ** e) for b in equivalent_copy(A, sigma, scalings(rng, r, nm, "signed"))]
+        calls.append(dict(As=A, Bs=B, absv=True, sigma=sigma, generic=True, single=(nm == 1 and k % 2 == 0), stream="scaled 2^%d" % e))
+    return calls
+
+
+def norm_product_underflows(call):
+    ms = list(call["As"]) + list(call["Bs"])
+    ns = [np.sqrt((np.asarray(m, dtype=np.float64) ** 2).sum(axis=0)) for m in ms]
+    return all(np.all(n > 0) for n in ns) and any(float(np.prod(n)) == 0.0 for n in ns)
+
+
+def pred_congruence_scale(call, out):
+    if out[0] == "reject" and norm_product_underflows(call):
+        return [("C20_congruence_norm_underflow", f"column-rescaled copy (every column norm non-zero, smallest "
+                 f"{min(float(np.sqrt((np.asarray(m) ** 2).sum(axis=0)).min()) for m in call['Bs'])!r}) rejected: {str(out[1])[:120]}")]
+    return pred_congruence(call, out)
+
+
+def emit_congruence_scale(cid, call, out):
+    """the exact model accepts these inputs; when the implementation rejects one by floating-point underflow (the known finding,
+    reported by the predicate) there is nothing to compare"""
+    if out[0] == "reject" and norm_product_underflows(call):
+        return None
+    return emit_congruence(cid, call, out)
+
+
+# ----------------------------------------------------------------------------- public functions of tensorly.metrics vs the model
+METRICS_MODELLED = {
+    "factors.py": {"congruence_coefficient"},
+    "similarity.py": {"correlation_index", "_compute_correlation_index"},
+    "leverage_scores.py": {"leverage_score_dist"},
+    "regression.py": {"MSE", "RMSE", "R2_score", "reflective_correlation_coefficient", "covariance", "variance", "standard_deviation",
+                      "correlation"},
+}
+METRICS_NOT_COVERED = {      # named as outside C20 (not in the property's anchors): no model, no theorem, no correspondence
+    "entropy.py": {"vonneumann_entropy", "tt_vonneumann_entropy", "cp_vonneumann_entropy"},
+}
+
+
+def metrics_inventory(repo):
+    """every function defined at module level in tensorly/metrics/*.py of the CURRENT source, sorted into modelled / named as not
+    covered / unlisted (a function that appeared since the model was written: reported in the evidence, not a verdict)"""
+    import glob
+    inv = {"modelled": [], "not_covered": [], "unlisted": [], "modelled_but_missing": []}
+    seen = set()
+    for fn in sorted(glob.glob(os.path.join(repo, "tensorly", "metrics", "*.py"))):
+        base = os.path.basename(fn)
+        if base == "__init__.py":
+            continue
+        try:
+            tree = ast.parse(open(fn).read())
+        except SyntaxError:
+            inv["unlisted"].append(base + ": unparsable"); continue
+        for node in tree.body:
+            if isinstance(node, (ast.FunctionDef, ast.AsyncFunctionDef)):
+                name = f"{base}:{node.name}"; seen.add(name)
+                if node.name in METRICS_MODELLED.get(base, ()):
+                    inv["modelled"].append(name)
+                elif node.name in METRICS_NOT_COVERED.get(base, ()):
+                    inv["not_covered"].append(name)
+                else:
+                    inv["unlisted"].append(name)
+    for base, names in METRICS_MODELLED.items():
+        inv["modelled_but_missing"] += [f"{base}:{n}" for n in sorted(names) if f"{base}:{n}" not in seen]
+    return inv
+
+
 # ----------------------------------------------------------------------------- known findings (own snippet merged at run time)
 def _load_known_merged(prop, _orig=C.load_known):
     """known_findings.json is assembled by the coordinator from known_findings.d/*.json; read this property's own snippet too
@@ -2046,6 +2241,8 @@ def _load_known_merged(prop, _orig=C.load_known):
 CLASSIFIERS = {
     # exactly the class: cp_permute_factors raised AND a weight of the reference / of a tensor passed inside a list is zero
     "permute_zero_weight": lambda f: f.get("predicate") == "C20_permute_zero_weight",
+    # exactly the class: congruence_coefficient raised, every column norm is non-zero, the float product of the norms of one matrix is 0
+    "norm_product_underflow": lambda f: f.get("predicate") == "C20_congruence_norm_underflow",
 }
 
 
@@ -2059,6 +2256,11 @@ STREAMS = {
     "regression": ("tensorly.metrics.regression", gen_reg, call_reg, pred_reg, emit_reg),
     # new streams go LAST: the single random stream of the earlier ones stays what it was
     "cp_permute_full": ("tensorly.cp_tensor.cp_permute_factors", gen_permute_full, call_permute, pred_permute_full, emit_permute_full),
+    # round 8
+    "congruence_edge": ("tensorly.metrics.factors.congruence_coefficient", gen_congruence_edge, call_congruence, pred_congruence, emit_congruence),
+    "correlation_index_lengths": ("tensorly.metrics.similarity.correlation_index", gen_corridx_lengths, call_corridx, pred_corridx, emit_corridx),
+    "cp_permute_ties": ("tensorly.cp_tensor.cp_permute_factors", gen_permute_ties, call_permute, pred_permute, emit_permute),
+    "congruence_scale": ("tensorly.metrics.factors.congruence_coefficient", gen_congruence_scale, call_congruence, pred_congruence_scale, emit_congruence_scale),
 }
 
 
@@ -2152,6 +2354,7 @@ def run(chk):
         opt = lambda n: f"(Some {differs[n]})" if n in differs else "None"
         return (f"({head}, KSrc {opt('factors.congruence_coefficient')} {opt('similarity.correlation_index')} "
                 f"{opt('leverage_scores.leverage_score_dist')} {opt('cp_tensor.cp_permute_factors')} ({body}))")
+    chk.cov["metrics_public_functions"] = metrics_inventory(C.REPO)
     lap("source_tie")
     todo = load_corpus()
     only = [x for x in os.environ.get("VERIF_C20_ONLY", "").split(",") if x]      # development aid (mutation screening): a subset of streams
@@ -2177,7 +2380,7 @@ def run(chk):
             continue
         if out[0] == "ok" and sname in ("regression",) and not finite(out[1]):
             skipped += 1; chk.hist("skipped", "non-finite (constant slice)"); continue
-        if sname == "correlation_index" and out[0] == "ok" and not call.get("malformed"):
+        if sname.startswith("correlation_index") and out[0] == "ok" and not call.get("malformed"):
             try:
                 if threshold_ambiguous(call):
                     skipped += 1; chk.hist("skipped", "correlation index within 1e-7 of tol"); continue
@@ -2190,6 +2393,8 @@ def run(chk):
             chk.finding(entry_point(sname, call), {"stream": sname, "call": encode_call(call)},
                         f"non-finite output cannot be compared with the model: {e}", "C20_finite_output", observed=str(out[1])[:300])
             continue
+        if lit is None:
+            skipped += 1; chk.hist("skipped", "rejected by floating-point underflow (known finding), exact model not comparable"); continue
         if sname in wrap_streams:
             lit = wrap_src(lit)
         cases.append(lit); meta.append((sname, call, out))
